@@ -55,6 +55,8 @@ type interpreter struct {
 	goDepth      int
 	extCache     map[*ssa.Function]externalFn
 	sampleCtr    int
+	noLazy       bool
+	solverPC     []*Term // path-condition elements currently asserted, one push level each
 }
 
 type deferred struct {
@@ -290,9 +292,6 @@ func visitInstr(fr *frame, instr ssa.Instruction) continuation {
 		cp := i.makeSize(fr.get(instr.Cap), "make: cap")
 		if ln < 0 || cp < ln {
 			i.raise("makeslice: len out of range")
-		}
-		if i.cfg != nil && i.cfg.MaxAlloc > 0 && cp > i.cfg.MaxAlloc {
-			i.allocTooBig(cp, instr)
 		}
 		slice := make([]value, cp)
 		tElt := instr.Type().Underlying().(*types.Slice).Elem()
